@@ -1,0 +1,8 @@
+//go:build verif
+
+// Contracts for the govc verifier (/verif). Comment-only: this file contains no code.
+package noroute
+
+//@ func GetHTML
+//@   trusted
+//@   assigns nothing
